@@ -126,3 +126,79 @@ PURE_MLS = {'MlsGroup::epoch', 'GroupEpoch::as_u64', 'MlsGroup::group_id', 'memb
             'ProtocolMessage::epoch', 'ProtocolMessage::content_type', 'ProtocolMessage::group_id', 'MDK::storage',
             'ProcessedMessage::credential', 'ProcessedMessage::sender', 'MlsGroup::own_leaf_index', 'own_leaf_index',
             '<GroupId as Into>::into', '<GroupId as From>::from'}
+
+
+# ---- nostr::UnsignedEvent id handling (contract read from nostr 0.44 src/event/unsigned.rs) -------------------------
+
+NOSTR_CONTRACT = [
+    'nostr: UnsignedEvent::id()/ensure_id() return/keep a pre-set id and compute the NIP-01 hash of (pubkey, created_at, kind, tags, content) only when id is None',
+    'nostr: UnsignedEvent::verify_id() is Ok iff id is None or id == NIP-01 hash of the fields',
+    'NIP-01 hash modelled as an uninterpreted function of the five fields',
+]
+
+
+def nip01_of(eng, st, ev):
+    """uninterpreted NIP-01 hash of an UnsignedEvent value (fields 1..5)"""
+    from .api import uid_of
+    parts = []
+    tys = ['nostr::key::PublicKey', 'nostr::Timestamp', 'nostr::Kind', 'nostr::Tags', 'std::string::String']
+    for i, t in enumerate(tys, start=1):
+        v, _ = eng.child(st, ev, ('f', i, t), None)
+        parts.append(uid_of(eng, st, v))
+    return Opaque('nip01(' + ','.join(parts) + ')', 'nostr::event::EventId')
+
+
+def nip01_of_fields(eng, st, pubkey, created_at, kind, tags, content):
+    from .api import uid_of
+    return Opaque('nip01(' + ','.join(uid_of(eng, st, v) for v in (pubkey, created_at, kind, tags, content)) + ')', 'nostr::event::EventId')
+
+
+def unsigned_event_models():
+    def _id(eng, st, call, want_ret=True):
+        a = call.args[0]
+        if not isinstance(a, Ref):
+            return None
+        a, ev = M.base_ref(eng, st, a)
+        idv, _ = eng.child(st, ev, ('f', 0, 'std::option::Option<nostr::event::EventId>'), None)
+        out = []
+        for s2, vn, payload in M.split_enum(eng, st, idv, 'Option'):
+            ev2 = eng.read(s2, a.loc, a.path)
+            if vn == 'Some':
+                out.append((s2, payload if want_ret else M.UNIT()))
+            else:
+                h = nip01_of(eng, s2, ev2)
+                eng.write(s2, a.loc, a.path + (('f', 0, 'std::option::Option<nostr::event::EventId>'),), M.SOME(h))
+                out.append((s2, h if want_ret else M.UNIT()))
+        from .engine import Event
+        for s2, r in out:
+            s2.trace.append(Event(call.fn, 'UnsignedEvent::id' if want_ret else 'UnsignedEvent::ensure_id', eng.snapshot_args(s2, call.args), r, len(s2.frames), call.site))
+        return out
+
+    def ensure(eng, st, call):
+        return _id(eng, st, call, False)
+
+    def verify(eng, st, call):
+        a = call.args[0]
+        if not isinstance(a, Ref):
+            return None
+        a, ev = M.base_ref(eng, st, a)
+        idv, _ = eng.child(st, ev, ('f', 0, 'std::option::Option<nostr::event::EventId>'), None)
+        out = []
+        from .engine import Event
+        for s2, vn, payload in M.split_enum(eng, st, idv, 'Option'):
+            if vn == 'None':
+                out.append((s2, M.OK(M.UNIT())))
+            else:
+                ev2 = eng.read(s2, a.loc, a.path)
+                e = M.val_eq(eng, payload, nip01_of(eng, s2, ev2))
+                for s3, b in M.bool_cases(eng, s2, e):
+                    out.append((s3, M.OK(M.UNIT()) if b else M.ERR(Opaque('InvalidId', 'nostr::event::unsigned::Error'))))
+        for s2, r in out:
+            s2.trace.append(Event(call.fn, 'UnsignedEvent::verify_id', eng.snapshot_args(s2, call.args), r, len(s2.frames), call.site))
+        return out
+
+    return [
+        (R(r'UnsignedEvent::id$'), _id),
+        (R(r'UnsignedEvent::ensure_id$'), ensure),
+        (R(r'UnsignedEvent::verify_id$'), verify),
+    ]
